@@ -10,9 +10,9 @@ OPS = ["jws_sign_compact", "jws_verify_compact", "jws_sign_json", "jws_verify_js
 def plan(tier):
     q = tier == "quick"
     T = 300 if q else 1500
-    specs = [("frame", [(o,) for o in range(12)]), ("two_ops", [(o,) for o in (range(12) if not q else (5, 10))])]
+    specs = [("frame", [(o, a) for o in range(12) for a in range(6)]), ("two_ops", [(o,) for o in (range(12) if not q else (5, 10))])]
     path, names = gen.specialise(BASE, specs, "c20_gen.py")
-    conds = [Cond(path, n, "main", T, "%s for operation %s" % (n.split("__")[0], OPS[int(n.split("__")[1])])) for n in names]
+    conds = [Cond(path, n, "main", T, "%s for operation %s" % (n.split("__")[0], OPS[int(n.split("__")[1].split("_")[0])])) for n in names]
     conds.append(Cond(BASE, "witness", "witness", 120))
     meta = {
         "engine": "E1 CrossHair: every operation kind with symbolic arguments on shared objects; deep snapshot of all shared mutable state before/after (frame condition)",
